@@ -557,7 +557,81 @@ fn seq_virtual(limit: u64, ops: &[&str]) -> String {
     compose(&outs, &join_sorted(lines), &fds, &tail)
 }
 
-const RESULT_FD: i32 = 300;
+/// Makes the calling process independent of what the check's parent did to it: every signal that can
+/// be reset goes back to SIG_DFL (a non-interactive shell starts background jobs with SIGINT and SIGQUIT
+/// ignored, `nohup` ignores SIGHUP, …), and the inherited signal mask is cleared.  Only async-signal-safe
+/// calls: also used between fork and exec.  `keep_pipe_ignored`: the harness itself and the system-call
+/// leg want EPIPE instead of a fatal SIGPIPE.
+fn reset_inherited_signal_state(keep_pipe_ignored: bool) {
+    // SAFETY: signal(2), sigemptyset(3), sigprocmask(2) on local data
+    unsafe {
+        for sig in 1..65 {
+            if sig == libc::SIGKILL || sig == libc::SIGSTOP || (32..34).contains(&sig) {
+                continue; // not settable / reserved by the C library
+            }
+            libc::signal(sig, libc::SIG_DFL);
+        }
+        if keep_pipe_ignored {
+            libc::signal(libc::SIGPIPE, libc::SIG_IGN);
+        }
+        let mut empty = std::mem::MaybeUninit::<libc::sigset_t>::uninit();
+        libc::sigemptyset(empty.as_mut_ptr());
+        libc::sigprocmask(libc::SIG_SETMASK, empty.as_ptr(), std::ptr::null_mut());
+    }
+}
+
+/// The rest of the inherited process state a real leg must not depend on: own session (no controlling
+/// terminal, own process group), explicit file creation mask, no core files, descriptors >= 3 that were
+/// inherited without close-on-exec closed (`keep` is spared), standard input from /dev/null.
+/// Async-signal-safe calls only.
+fn detach_from_parent_state(umask: libc::mode_t, keep: i32) {
+    // SAFETY: plain system calls on integers and static strings
+    unsafe {
+        libc::setsid();
+        libc::umask(umask);
+        let no_core = libc::rlimit { rlim_cur: 0, rlim_max: 0 };
+        libc::setrlimit(libc::RLIMIT_CORE, &no_core);
+        for fd in 3..1024 {
+            if fd == keep {
+                continue;
+            }
+            let flags = libc::fcntl(fd, libc::F_GETFD);
+            if flags >= 0 && flags & libc::FD_CLOEXEC == 0 {
+                libc::close(fd);
+            }
+        }
+        let null = libc::open(c"/dev/null".as_ptr(), libc::O_RDWR);
+        if null >= 0 {
+            if null != 0 {
+                libc::dup2(null, 0);
+                libc::close(null);
+            }
+        }
+    }
+}
+
+static RESULT_FD_CELL: std::sync::atomic::AtomicI32 = std::sync::atomic::AtomicI32::new(300);
+
+/// descriptor on which a real-leg child reports (far above anything a case uses)
+fn result_fd() -> i32 {
+    RESULT_FD_CELL.load(std::sync::atomic::Ordering::Relaxed)
+}
+
+/// The inherited RLIMIT_NOFILE must not matter: raise the soft limit to the hard limit (at most 4096) and
+/// put the result descriptor just below it if that is lower than 300.
+fn normalize_descriptor_limit() {
+    let mut lim = libc::rlimit { rlim_cur: 0, rlim_max: 0 };
+    // SAFETY: get/setrlimit on a local struct
+    unsafe {
+        if libc::getrlimit(libc::RLIMIT_NOFILE, &mut lim) == 0 {
+            lim.rlim_cur = if lim.rlim_max == libc::RLIM_INFINITY { 4096 } else { lim.rlim_max.min(4096) };
+            libc::setrlimit(libc::RLIMIT_NOFILE, &lim);
+            if lim.rlim_cur <= 300 {
+                RESULT_FD_CELL.store(lim.rlim_cur as i32 - 1, std::sync::atomic::Ordering::Relaxed);
+            }
+        }
+    }
+}
 
 static REAL_CHILDREN: std::sync::atomic::AtomicUsize = std::sync::atomic::AtomicUsize::new(0);
 static REAL_PROC_CHILDREN: std::sync::atomic::AtomicUsize = std::sync::atomic::AtomicUsize::new(0);
@@ -584,6 +658,7 @@ fn seq_real(limit: u64, ops: &[&str]) -> String {
     std::fs::create_dir(&std_dir).unwrap();
     for n in ["0", "1", "2"] {
         std::fs::write(std_dir.join(n), b"").unwrap();
+        std::fs::set_permissions(std_dir.join(n), std::fs::Permissions::from_mode(0o644)).unwrap();
     }
     // canonical form of the root as getcwd will report it
     let root_str = std::fs::canonicalize(&root).unwrap().to_string_lossy().into_owned();
@@ -600,9 +675,10 @@ fn seq_real(limit: u64, ops: &[&str]) -> String {
     assert!(pid >= 0, "fork failed");
     if pid == 0 {
         // ---- child: private descriptor table, cwd, umask, limits
+        reset_inherited_signal_state(true);
         unsafe {
-            libc::signal(libc::SIGPIPE, libc::SIG_IGN);
-            libc::dup2(pipe_fds[1], RESULT_FD);
+            libc::setsid();
+            libc::dup2(pipe_fds[1], result_fd());
             for n in ["0", "1", "2"] {
                 let p = CString::new(std_dir.join(n).to_string_lossy().as_bytes()).unwrap();
                 let fd = libc::open(p.as_ptr(), libc::O_RDWR | libc::O_APPEND);
@@ -612,7 +688,7 @@ fn seq_real(limit: u64, ops: &[&str]) -> String {
                     libc::close(fd);
                 }
             }
-            for fd in 3..RESULT_FD {
+            for fd in 3..result_fd() {
                 libc::close(fd);
             }
         }
@@ -626,7 +702,7 @@ fn seq_real(limit: u64, ops: &[&str]) -> String {
             let b = text.as_bytes();
             let mut off = 0;
             while off < b.len() {
-                let n = libc::write(RESULT_FD, b[off..].as_ptr().cast(), b.len() - off);
+                let n = libc::write(result_fd(), b[off..].as_ptr().cast(), b.len() - off);
                 if n <= 0 {
                     break;
                 }
@@ -1362,7 +1438,7 @@ fn raw_write(text: &str) {
     let mut off = 0;
     while off < b.len() {
         // SAFETY: plain write(2) on the result pipe
-        let n = unsafe { libc::write(RESULT_FD, b[off..].as_ptr().cast(), b.len() - off) };
+        let n = unsafe { libc::write(result_fd(), b[off..].as_ptr().cast(), b.len() - off) };
         if n <= 0 {
             break;
         }
@@ -1389,14 +1465,11 @@ fn proc_real_p0(ops: &[String]) {
     use yash_env::system::Wait as _;
     // SAFETY: own process group (so that kill(0, …) reaches P0 and its child only), default dispositions,
     // empty mask, a watchdog alarm
+    reset_inherited_signal_state(false);
+    detach_from_parent_state(0o022, result_fd());
     unsafe {
-        libc::setpgid(0, 0);
-        let mut empty = std::mem::MaybeUninit::<libc::sigset_t>::uninit();
-        libc::sigemptyset(empty.as_mut_ptr());
-        libc::sigprocmask(libc::SIG_SETMASK, empty.as_ptr(), std::ptr::null_mut());
-        for n in PSIGS {
-            libc::signal(signum::<RealSystem>(n).unwrap().as_raw(), libc::SIG_DFL);
-        }
+        let tmp = std::ffi::CString::new(std::env::temp_dir().to_string_lossy().as_bytes()).unwrap();
+        libc::chdir(tmp.as_ptr());
         libc::alarm(20);
         let no_core = libc::rlimit { rlim_cur: 0, rlim_max: 0 };
         libc::setrlimit(libc::RLIMIT_CORE, &no_core);
@@ -1459,7 +1532,7 @@ fn proc_real(ops: &[String]) -> String {
     assert!(pid >= 0, "fork failed");
     if pid == 0 {
         unsafe {
-            libc::dup2(pipe_fds[1], RESULT_FD);
+            libc::dup2(pipe_fds[1], result_fd());
             libc::close(pipe_fds[0]);
             libc::close(pipe_fds[1]);
         }
@@ -1874,9 +1947,17 @@ fn shell_real(script: &str) -> String {
     // process (`Mode::default()`), so both shells start from the same state.
     unsafe {
         cmd.pre_exec(|| {
-            libc::umask(0o644);
-            // own process group: `kill -s SIG 0` in a script must reach the script's processes only
-            libc::setpgid(0, 0);
+            // nothing of the check's own parent may leak into the real shell: signal dispositions and mask
+            // (a shell that inherits SIGINT/SIGQUIT ignored lists them in `trap`), session / controlling
+            // terminal / process group (`kill -s SIG 0` must reach the script's processes only), umask,
+            // inherited descriptors, descriptor limit (the simulator has none: a generous fixed one)
+            reset_inherited_signal_state(false);
+            detach_from_parent_state(0o644, -1);
+            let mut lim = libc::rlimit { rlim_cur: 0, rlim_max: 0 };
+            if libc::getrlimit(libc::RLIMIT_NOFILE, &mut lim) == 0 {
+                lim.rlim_cur = if lim.rlim_max == libc::RLIM_INFINITY { 4096 } else { lim.rlim_max.min(4096) };
+                libc::setrlimit(libc::RLIMIT_NOFILE, &lim);
+            }
             Ok(())
         });
     }
@@ -2100,6 +2181,13 @@ fn run_case(case: &str) {
 }
 
 fn main() {
+    // the harness itself, and with it every child it forks, starts from default dispositions and an
+    // empty mask whatever the check's parent handed down (background job of a non-interactive shell,
+    // nohup, CI runner)
+    reset_inherited_signal_state(true);
+    normalize_descriptor_limit();
+    // SAFETY: umask(2); the scratch trees are created with explicit modes, this is for everything else
+    unsafe { libc::umask(0o022) };
     quiet_panics();
     let opts = Opts::from_args();
     build_yash3();
